@@ -30,8 +30,10 @@ CONSTANTS OFFBYONE,   \* TRUE: model the "fix an error seen in some PDF files"
                       \* key with generation 0 whatever the object's generation
           DECRYPTMEMBERS, \* TRUE (defective variant): the reader decrypts the
                       \* strings of object-stream members a second time
-          TRAILERMERGE    \* TRUE (defective variant): every section on the /Prev
+          TRAILERMERGE,   \* TRUE (defective variant): every section on the /Prev
                       \* chain contributes the trailer keys not seen so far
+          ZEROLENUNKNOWN  \* TRUE (defective variant): a resolved /Length of 0 is
+                      \* treated as unknown (n > 0 instead of n >= 0)
 
 Kinds   == {"table", "stream", "hybrid"}
 OpNames == {"keep",    \* the revision does not touch the object
@@ -333,12 +335,15 @@ KeywordAt(D, i) == i >= 1 /\ i + 8 <= Len(D) /\ SubSeq(D, i, i + 8) = KW
 SkipWS(D, i) == LET cand == {j \in i..Len(D) : ~IsWS(D[j])}
                 IN IF cand = {} THEN Len(D) + 1 ELSE CHOOSE j \in cand : \A k \in cand : j <= k
 
-\* the true extent: the data are delimited by the end-of-line marker that
-\* precedes the endstream keyword
+\* the true extent: a valid /Length rules (7.3.8.2); the end-of-line marker
+\* before endstream is only recommended (7.3.8.1) and may be missing when the
+\* length is right.  Where the length is missing or wrong, the data are
+\* delimited by the end-of-line marker that precedes the endstream keyword.
 RefExtent(D, blen) == blen
-EolLen(D, blen)   == IF blen + 2 <= Len(D) /\ D[blen + 1] = 13 /\ D[blen + 2] = 10 THEN 2 ELSE 1
+EolLen(D, blen)   == IF blen + 2 <= Len(D) /\ D[blen + 1] = 13 /\ D[blen + 2] = 10 THEN 2
+                     ELSE IF blen + 1 <= Len(D) /\ IsEOL(D[blen + 1]) THEN 1 ELSE 0
 TermPos(D, blen)  == blen + EolLen(D, blen) + 1
-WellDelimited(D, blen) == blen + 1 <= Len(D) /\ IsEOL(D[blen + 1]) /\ KeywordAt(D, TermPos(D, blen))
+WellDelimited(D, blen) == KeywordAt(D, TermPos(D, blen))
 
 \* the bodies and wrong lengths the property quantifies over
 BodyAdmissible(D, blen) ==
@@ -354,14 +359,16 @@ WrongAdmissible(D, blen, declared) ==
      /\ ~JustBeforeAnother(D, blen, declared)
      /\ ~DeclaredEndsInEOL(D, blen, declared)
 Admissible(D, blen, declared) ==
-  WellDelimited(D, blen) /\ BodyAdmissible(D, blen) /\ WrongAdmissible(D, blen, declared)
+  /\ WellDelimited(D, blen) /\ BodyAdmissible(D, blen) /\ WrongAdmissible(D, blen, declared)
+  \* without the end-of-line marker only a right length delimits the data
+  /\ EolLen(D, blen) = 0 => declared = blen
 
 \* what the standard makes of the declaration: only a non-negative integer
 \* is a length (7.3.8.2; a null entry is an absent entry, 7.3.7)
 RefDeclared(lk, v) == IF lk = "int" /\ v >= 0 THEN v ELSE -1
 \* what the code makes of it (reader.go safeGetInteger, scanner.go
 \* ReadStreamData): negative, non-integer and null lengths are unknown
-ImplDeclared(lk, v) == IF lk = "int" THEN (IF v >= 0 THEN v ELSE -1)
+ImplDeclared(lk, v) == IF lk = "int" THEN (IF v > 0 \/ (v = 0 /\ ~ZEROLENUNKNOWN) THEN v ELSE -1)
                        ELSE IF lk = "null" /\ NULLZERO THEN 0 ELSE -1
 
 \* scanner.go: endstreamAt, Find(endstreamPat), trimTrailingEOL
